@@ -2,5 +2,16 @@
 
 package eni
 
+import (
+	"k8s.io/client-go/tools/record"
+	"sigs.k8s.io/controller-runtime/pkg/client"
+	"sigs.k8s.io/controller-runtime/pkg/reconcile"
+)
+
 // VerifParseResourceID exposes parseResourceID (legacy stored-record ids) to the verification harness.
 func VerifParseResourceID(id string) (string, string, error) { return parseResourceID(id) }
+
+// VerifNewNodeReconcile builds the daemon-side Node CR reconciler over an injected client.
+func VerifNewNodeReconcile(c client.Client, rec record.EventRecorder, nodeName string) reconcile.Reconciler {
+	return &nodeReconcile{client: c, record: rec, nodeName: nodeName}
+}
